@@ -72,9 +72,16 @@ pub fn gen_sequence(rng: &mut Rng, nmax: usize, len: usize, hostile: bool) -> Se
             wide_alpha(rng, &alpha_ref)
         }
     };
+    let mut prev: Vec<f64> = spec.alpha0.clone();
     for _ in 0..len {
         match rng.below(12) {
-            0..=3 => ops.push(Op::Set(draw(rng))),
+            0..=3 => {
+                // coordinate-wise steps keep the other parameters bit-identical
+                let fresh = draw(rng);
+                let a = next_alpha(rng, &prev, fresh);
+                prev = a.clone();
+                ops.push(Op::Set(a))
+            }
             4 => ops.push(Op::SetSame),
             5 => {
                 // extreme parameters that empty the cache
